@@ -745,6 +745,10 @@ def dump_one(f: TextIO, data: IOData):
         if item in level:
             level = item
     for key, arr in data.one_rdms.items():
+        if data.obasis is not None:
+            # convert to the FCHK basis conventions, like the orbital coefficients
+            permutation, signs = convert_conventions(data.obasis, CONVENTIONS)
+            arr = arr[permutation][:, permutation] * signs.reshape(-1, 1) * signs
         # get lower triangular elements of RDM
         mat = arr[np.tril_indices(arr.shape[0])]
 
